@@ -108,8 +108,14 @@ QUERIES = ["is_empty", "is_bottom", "is_top", "is_universe", "size", "OK", "cont
            "geometrically_covers", "geometrically_equals", "definitely_entails", "equals", "is_disjoint_from"]
 
 
+# operations that consult abandon_expensive_computations (directly: concatenate_assign; through omega_reduce(): the others)
+# and are monotone in their operands, so that the degraded result must still contain the exact one
+HURRY_OPS = ("omega_reduce", "pairwise_reduce", "collapse", "concatenate_assign", "meet_assign", "intersection_assign",
+             "upper_bound_assign", "least_upper_bound_assign", "map_space_dimensions")
+
+
 class Gen:
-    def __init__(self, rnd, cid, maxdim=2, nobj=3, steps=10, ops=None, pq=0.25, closure=True, dimops=True):
+    def __init__(self, rnd, cid, maxdim=2, nobj=3, steps=10, ops=None, pq=0.25, closure=True, dimops=True, phurry=0.12):
         self.rnd = rnd; self.cid = cid
         self.nnc = rnd.random() < 0.5
         self.dim0 = rnd.randint(1, maxdim)
@@ -117,7 +123,7 @@ class Gen:
         self.objs = {}      # id -> (dim, size upper bound)
         self.lines = ["case %s %s" % (cid, "NNC" if self.nnc else "C")]
         self.ops = ops; self.pq = pq; self.steps = steps; self.nobj = nobj
-        self.closure = closure; self.dimops = dimops
+        self.closure = closure; self.dimops = dimops; self.phurry = phurry
 
     def piece(self, dim):
         if dim not in self.pal:
@@ -144,6 +150,15 @@ class Gen:
             self.objs[oid][1] += 1
 
     def step(self):
+        n0 = len(self.lines)
+        self.step0()
+        # with probability phurry the step runs with the abandon flag raised (only its last line: the operation itself)
+        if len(self.lines) > n0 and self.rnd.random() < self.phurry:
+            t = self.lines[-1].split(" ")
+            if (t[0] == "op" and t[2] in HURRY_OPS) or (t[0] == "qry" and t[2] == "is_bottom"):
+                self.lines[-1] = "hurry " + self.lines[-1]
+
+    def step0(self):
         r = self.rnd
         ids = sorted(self.objs)
         x = r.choice(ids); dim, sz = self.objs[x]
@@ -267,6 +282,43 @@ class Gen:
             self.cow_block()
         self.lines.append("end")
         return self.lines
+
+
+def hurry_cases(seed, n, start=0):
+    """operations driven with abandon_expensive_computations raised, on reduced and unreduced operands of 1-4 disjuncts:
+    mostly concatenate_assign (whose hurry-up branch needs >= 2 disjuncts on each side, already flagged reduced)"""
+    rnd = random.Random(seed)
+    out = []
+    for i in range(n):
+        g = Gen(rnd, "h%d" % (start + i), maxdim=1 if rnd.random() < 0.7 else 2, nobj=2, steps=0)
+        dim = g.dim0
+        L = g.lines
+        for oid in (1, 2):
+            L.append("new %d %d empty" % (oid, dim))
+            k = rnd.randint(1, 4)
+            # mostly pairwise incomparable pieces (so that several disjuncts survive omega-reduction)
+            for j in range(k):
+                if rnd.random() < 0.7:
+                    lo = [rnd.randint(-2, 1) + 10 * j * (1 if rnd.random() < 0.8 else 0) for _ in range(dim)]
+                    bounds = [(a, a + rnd.randint(0, 2)) for a in lo]
+                    L.append("op %d add_disjunct %s" % (oid, cons(box_cons(dim, bounds))))
+                else:
+                    L.append("op %d add_disjunct %s" % (oid, cons(g.piece(dim))))
+            if rnd.random() < 0.7: L.append("op %d omega_reduce" % oid)      # operand already flagged reduced
+        ops = ["concatenate_assign"] * 4 + ["meet_assign", "upper_bound_assign", "omega_reduce", "pairwise_reduce", "collapse 2", "qry", "difference_assign"]
+        for _ in range(rnd.randint(1, 3)):
+            o = rnd.choice(ops)
+            x = rnd.choice([1, 2]); y = 3 - x
+            if o == "concatenate_assign":
+                L.append("hurry op %d concatenate_assign %d" % (x, y))
+                break                                                        # dimensions differ afterwards
+            elif o in ("meet_assign", "upper_bound_assign", "difference_assign"): L.append("hurry op %d %s %d" % (x, o, y))
+            elif o == "qry": L.append("hurry qry %d is_bottom" % x)
+            else: L.append("hurry op %d %s" % (x, o))
+        L.append("qry 1 OK")
+        L.append("end")
+        out += L
+    return out
 
 
 def make_cases(seed, n, start=0, **kw):
